@@ -47,9 +47,19 @@ type T struct {
 	NT []string `form:"nt" header:"x-nt" cookie:"nt" json:"nt" xml:"nt" cbor:"nt"`
 	// N has no tags at all: every source uses the Go name.
 	N string
+	// named types over the supported kinds: SetValWithStruct and gofiber/schema both go by reflect.Kind
+	MS  MyStr   `param:"ms" query:"ms" form:"ms" header:"X-Ms" cookie:"ms" json:"ms" xml:"ms" cbor:"ms"`
+	MIS []MyI16 `param:"mis" query:"mis" form:"mis" header:"X-Mis" cookie:"mis" json:"mis" xml:"mis" cbor:"mis"`
+	MF  MyF32   `param:"mf" query:"mf" form:"mf" header:"X-Mf" cookie:"mf" json:"mf" xml:"mf" cbor:"mf"`
 }
 
-const nFields = 26
+type (
+	MyStr string
+	MyI16 int16
+	MyF32 float32
+)
+
+const nFields = 29
 
 // serverTag is the struct tag the server-side binder of each source reads.
 func serverTag(source string) string {
